@@ -97,6 +97,19 @@ pub fn ratio_case(a: u128, n: u128, d: u128) -> Case {
             if let (Ok(Ok(c)), Ok(Ok(s))) = (&cc, &sc) {
                 prove(f, "C16:ops:checked_mul_ceil: symbolic result term equals the stock result", t::eq(&t::ut(*s), &c.u128().to_string()));
             }
+            // div_floor / div_ceil with the fraction (n, d): floor / ceil of a * d / n
+            let df = symcore::catch(|| Uint128::new(a).checked_div_floor((n, d)).map_err(|e| format!("{e:?}")));
+            let sdf = symcore::catch(|| sa.checked_div_floor((sn, sd)).map_err(|e| format!("{e:?}")));
+            claim(f, "C16:ops:checked_div_floor: symbolic and stock implementation agree on ok / error", outcome(df.clone()) == outcome(sdf.clone()));
+            if let (Ok(Ok(c)), Ok(Ok(s))) = (&df, &sdf) {
+                prove(f, "C16:ops:checked_div_floor: symbolic result term equals the stock result", t::eq(&t::ut(*s), &c.u128().to_string()));
+            }
+            let dc = symcore::catch(|| Uint128::new(a).checked_div_ceil((n, d)).map_err(|e| format!("{e:?}")));
+            let sdc = symcore::catch(|| sa.checked_div_ceil((sn, sd)).map_err(|e| format!("{e:?}")));
+            claim(f, "C16:ops:checked_div_ceil: symbolic and stock implementation agree on ok / error", outcome(dc.clone()) == outcome(sdc.clone()));
+            if let (Ok(Ok(c)), Ok(Ok(s))) = (&dc, &sdc) {
+                prove(f, "C16:ops:checked_div_ceil: symbolic result term equals the stock result", t::eq(&t::ut(*s), &c.u128().to_string()));
+            }
             // Decimal::from_ratio and its printed / parsed form
             let cd = symcore::catch(|| Decimal::checked_from_ratio(a, d).map_err(|e| format!("{e:?}")));
             let sdm = symcore::catch(|| Decimal::checked_from_ratio(sa, sd).map_err(|e| format!("{e:?}")));
